@@ -5,8 +5,3 @@
 // Verus' reach and stay assumed: the contracts in units/relwrap/contracts.vspec only say that each accessor returns
 // its component of `acc(handle)`.
 // ---------------------------------------------------------------------------------------------
-/// R-method-map: `v.into_iter()` on a Vec => the elements in order
-#[verifier::external_body]
-pub fn vx_vec_into_iter<T>(v: Vec<T>) -> (r: VxIter<T>)
-    ensures r@ == v@, r@.len() <= usize::MAX   // a Vec holds at most usize::MAX elements
-{ unimplemented!() }
